@@ -196,7 +196,16 @@ private:
 
                 if( isdigit( ch ))
                 {
+                    io_error_if( k + 1 >= sizeof( buf ), "Number too long in PNM file" );
+
                     buf[ k++ ] = static_cast< char >( ch );
+
+                    // the samples of a plain PBM file are single digits that need no separator
+                    if( this->_info._type == pnm_image_type::mono_asc_t::value )
+                    {
+                        buf[ k ] = 0;
+                        break;
+                    }
                 }
                 else if( k )
                 {
